@@ -19,6 +19,7 @@ class LookupModel(KModel):
 
     def __init__(self, decisions):
         super().__init__({})
+        self.allow_opaque = False
         self.decisions = list(decisions)
         self.used = 0
         self.facts = {}            # index-term string -> set of relations of A[k] to q: 'A<q','A<=q','A>q','A>=q'
